@@ -9,7 +9,8 @@ Oracle: computed from the structured description (never from the bytes through a
 """
 from __future__ import annotations
 
-from harness.common import Failure, Spec, coq_bool, coq_bytes, coq_list
+from harness.common import REPO, Failure, Spec, coq_bool, coq_bytes, coq_list
+from translate import c23 as pins
 
 H = bytes.fromhex
 TIMINGS = ["never", "at-response", "after", "after-lost"]
@@ -301,6 +302,11 @@ def impl(case) -> str:
             if closed:
                 got.append(b"<<after-close>>")
             got.append(data)
+            if case.get("consumer_close") and isinstance(box["response"].length, int) \
+                    and len(b"".join(got)) >= box["response"].length > 0:
+                # the application has everything it was promised and hangs up, from inside dataReceived; the transport
+                # reports the loss synchronously
+                self.transport.loseConnection()
 
         def connectionLost(self, reason):
             if reason.check(ResponseDone):
@@ -336,7 +342,12 @@ def impl(case) -> str:
             fired.append("?" + f.type.__name__)
 
     proto = HTTP11ClientProtocol()
-    transport = StringTransport()
+    if case.get("consumer_close"):
+        from twisted.internet.testing import StringTransportWithDisconnection
+        transport = StringTransportWithDisconnection()
+        transport.protocol = proto
+    else:
+        transport = StringTransport()
     proto.makeConnection(transport)
     req = Request(H(case["method"]), b"/", Headers({b"host": [b"h"]}), None, persistent=case["persistent"])
     d = proto.request(req)
@@ -346,10 +357,12 @@ def impl(case) -> str:
     for i, s in enumerate(segs):
         if i == k and timing == "after":
             deliver()
+        if not transport.connected:
+            break                      # nothing arrives on a connection that is gone
         proto.dataReceived(s)
     if k >= len(segs) and timing == "after":
         deliver()
-    if case["lose"]:
+    if case["lose"] and transport.connected:
         proto.connectionLost(TFailure(ConnectionDone()))
     if timing == "after-lost":
         deliver()
@@ -553,6 +566,13 @@ def oracle(case, obs):
         return None
     head_ok, received, complete = expected(case)
     desc = case["desc"]
+    if case.get("long_line_refused"):
+        # a chunk-size line of maxChunkSizeLineLength bytes or more: refused, however it is cut
+        if fired != [f"R{desc['code']}"] or delivered != b"" or (timing != "never" and closed != ["F"]):
+            return Failure(case, f"chunk-size line of {case['long_line_refused']} bytes: expected the response, no body "
+                           f"bytes and ResponseFailed; got {fired} / {len(delivered)} bytes / {closed}",
+                           "chunk-size-line-limit")
+        return None
     # --- request Deferred: exactly once; with the response iff the head is complete ---------------
     if head_ok:
         if fired != [f"R{desc['code']}"]:
@@ -586,8 +606,13 @@ def oracle(case, obs):
     else:
         want = "F"
     if closed != [want]:
+        tag = "reason-" + desc["framing"]
+        if case.get("consumer_close"):
+            tag += "-consumer-hangs-up-at-completion"
+        if case.get("long_line"):
+            tag = "chunk-size-line-limit"
         return Failure(case, f"consumer.connectionLost reasons {closed}, expected [{want}] "
-                       f"(framing {desc['framing']}, complete={complete}, lose={lose})", "reason-" + desc["framing"])
+                       f"(framing {desc['framing']}, complete={complete}, lose={lose})", tag)
     return None
 
 
@@ -651,6 +676,57 @@ def _case(rng, desc, t, segs, timing=None, lose=True):
     return {"desc": desc, "t": t, "method": desc["method"].encode().hex(), "segs": [x.hex() for x in segs],
             "k": rng.randrange(len(segs) + 1), "timing": timing or rng.choice(TIMINGS), "lose": lose,
             "persistent": rng.random() < 0.5}
+
+
+def _consumer_close_block(rng, tier):
+    """a Content-Length body whose consumer hangs up (loseConnection on the response's transport, reported
+    synchronously) from inside dataReceived the moment it has response.length bytes: the body was received completely,
+    so it ends with ResponseDone whatever the consumer does at that moment"""
+    out = []
+    for fr, code in (("cl", 200), ("cl-dup", 404), ("cl", 200)):
+        for n in ((1, 5, 30) if tier == "quick" else (1, 2, 5, 8, 30, 64)):
+            d = {"method": "GET", "code": code, "framing": fr, "phrase": "OK", "headers": [], "interim": rng.choice([[], [100]]),
+                 "body": bytes(rng.choice(b"abcdef\r\n") for _ in range(n)).hex(), "nl": "\r\n", "version": "HTTP/1.1",
+                 "extra": rng.choice(["", b"XY".hex()])}
+            wire, headlen, bmap, complete_at = build(d)
+            cuts = [[c] for c in range(max(1, headlen - 2), len(wire))] + [None, None]
+            for cut in cuts:
+                segs = _segment(rng, wire, cut)
+                for timing in ("at-response", "after"):
+                    c = _case(rng, d, len(wire), segs, timing)
+                    c["consumer_close"] = "loseConnection"
+                    if timing == "after":
+                        c["k"] = rng.randrange(len(segs))        # strictly before the last delivery
+                    out.append(c)
+    return out
+
+
+def _long_chunk_line_block(rng, tier):
+    """chunk-size lines of maxChunkSizeLineLength-2 .. +1 bytes (size + extension), cut at every position around the CRLF
+    that ends them and delivered byte by byte around it: up to 1023 bytes they are accepted, from 1024 on refused -
+    whatever the segmentation"""
+    out = []
+    for L in (1022, 1023, 1024, 1025):
+        ext = ";" + "x" * (L - 2)
+        d = {"method": "GET", "code": 200, "framing": "chunked", "body": b"hello!!!".hex(), "phrase": "OK", "headers": [],
+             "interim": [], "nl": "\r\n", "version": "HTTP/1.1", "chunks": [5, 3], "chunkfmt": [[0, ext], [0, ""]],
+             "trailers": [], "te": "chunked"}
+        wire, headlen, bmap, complete_at = build(d)
+        eol = headlen + L                      # offset of the CR ending the first chunk-size line
+        plans = [[eol + j] for j in range(-3, 5)]
+        plans += [[eol + j, eol + j2] for j in (-1, 0, 1) for j2 in (2, 3) if j < j2]
+        plans += [list(range(eol - 3, eol + 6))]                      # byte by byte around it
+        plans += [list(range(headlen + 1, headlen + 8)) + [eol + 1]]   # and from the start of the line
+        if tier != "quick":
+            plans += [[rng.randrange(1, len(wire)), eol + 1] for _ in range(10)]
+        for cut in plans:
+            cut = sorted(set(c for c in cut if 0 < c < len(wire)))
+            c = _case(rng, d, len(wire), _segment(rng, wire, cut), rng.choice(["at-response", "after-lost"]))
+            c["long_line"] = L
+            if L >= 1024:
+                c["long_line_refused"] = L
+            out.append(c)
+    return out
 
 
 def _interim_framing_block(rng, tier):
@@ -777,6 +853,8 @@ def gen(rng, tier):
                 cases.append({"desc": desc, "t": t, "method": desc["method"].encode().hex(),
                               "segs": [s.hex() for s in segs], "k": rng.randrange(len(segs) + 1),
                               "timing": timing, "lose": rng.random() < 0.8, "persistent": rng.random() < 0.5})
+    cases += _consumer_close_block(rng, tier)
+    cases += _long_chunk_line_block(rng, tier)
     cases += _interim_framing_block(rng, tier)
     cases += _chunk_size_line_block(rng, tier)
     # boundaries of every response, all timings, lost and open
@@ -953,6 +1031,8 @@ def to_coq_two(case):
 
 
 def to_coq(case):
+    if case.get("long_line_refused"):
+        return None          # the model does not carry the length limit (design.d/C23.md); oracle only
     if case.get("kind") == "two":
         return to_coq_two(case)
     if case.get("kind") == "proto":
@@ -1010,6 +1090,7 @@ def histogram(case, obs):
 SPEC = Spec(
     pid="C23",
     gen=gen, impl=impl, oracle=oracle, corpus=corpus, shrink=shrink,
+    regen=lambda: pins.check(REPO),
     coq_header="From C23 Require Import Model Protocol Run.",
     coq_fn="run_show_all",
     to_coq=to_coq,
